@@ -254,6 +254,41 @@ def check_vm(res, c1, c2, x, e1, e2):
     return prod == (c1 if c1 is not None else 1) * (c2 if c2 is not None else 1)
 
 
+def _term_coef(t):
+    """coefficient of a schema term c*v^n / c*v / v^n / v (None when absent)"""
+    if t[0] == "B" and t[2] == "mul" and t[3][0] == "C":
+        return t[3][2]
+    return None
+
+
+def is_known_equal_fraction(name, inst, applicable):
+    """predicate of the open finding C08-factor-out-equal-fractional-coefficients (known_findings.json): the
+    factor-out rule accepts UNLIKE terms when both carry the same coefficient strictly between 0 and 1"""
+    if applicable or name not in ("unlike variables ax + by", "unlike exponents"):
+        return False
+    try:
+        c1, c2 = _term_coef(inst[3]), _term_coef(inst[4])
+    except Exception:  # noqa
+        return False
+    return c1 is not None and c1 == c2 and 0 < c1 < 1
+
+
+def probe_known_equal_fraction(ctx, reproduced):
+    """re-execute the witness of the open finding; print KNOWN-FINDING while it reproduces"""
+    f = [f for f in ctx.open_findings() if f.get("id") == "C08-factor-out-equal-fractional-coefficients"]
+    if not f:
+        return False
+    from mathy_core.rules import DistributiveFactorOutRule
+    try:
+        hit = bool(DistributiveFactorOutRule().can_apply_to(core.parse_fresh("0.5y + 0.5z")))
+    except Exception:  # noqa
+        hit = False
+    if hit:
+        ctx.known_finding(f"{f[0]['id']}: {f[0]['what'][:300]} (reproduced on '0.5y + 0.5z'"
+                          + (f" and on {reproduced} generated instances" if reproduced else "") + ")")
+    return hit
+
+
 def c08(ctx):
     ctx.coverage["rule"] = (
         "instances of every documented rule form (swap, regroup both ways, fold c1 op c2, factor ax^n+bx^n, "
@@ -271,6 +306,7 @@ def c08(ctx):
     applied = 0
     skipped = 0
     per_schema = {}
+    known_fraction = []
     for _ in range(rounds):
         for sc in schemas(rng):
             name, rn, inst, expected, allowed, applicable = sc[:6]
@@ -297,9 +333,13 @@ def c08(ctx):
             rule = core.rule_instance(rn)
             can = bool(rule.can_apply_to(node))
             if can != applicable:
-                bad.append({"schema": name, "text": text, "node": idx,
-                            "problem": "rule %s the documented form" % ("rejects" if applicable else "accepts a form documented as not applicable:"),
-                            "instance": core.tuple_str(inst)})
+                entry = {"schema": name, "text": text, "node": idx,
+                         "problem": "rule %s the documented form" % ("rejects" if applicable else "accepts a form documented as not applicable:"),
+                         "instance": core.tuple_str(inst)}
+                if is_known_equal_fraction(name, inst, applicable):
+                    known_fraction.append(entry)
+                else:
+                    bad.append(entry)
                 continue
             if not applicable:
                 continue
@@ -396,6 +436,9 @@ def c08(ctx):
     iprobs, _walks = inplace_family(ctx, "C08")
     for p_ in iprobs[:5]:
         bad.append(dict(p_, schema="form reached by in-place edits (long-lived rule objects)"))
+    # open finding: unlike terms with one and the same coefficient in (0, 1) are accepted by the factor-out rule
+    if not probe_known_equal_fraction(ctx, len(known_fraction)):
+        bad += known_fraction          # not listed (any more) / does not reproduce: ordinary violations
     finish(ctx, [("schema", bad)], [], "each rule performs its documented transformation")
 
 
